@@ -20,6 +20,7 @@
    * `item, ok := <-source; wg.Add(1); go func()` (:274-281) is one step (rendezvous with G).
    * `wg.Done(); <-pool` (:288-289) is one step; `wg.Wait(); close(collector)` (:259-260) is one step.
    * the re-check of panicChan in the output arm and the following retErr.Load (1af3580) are one step (COut).
+   * the end of the deferred `for range output` and the re-check of panicChan after it (e753473) are one step.
    * select statements pick any ready arm (label says which); `default` only if no arm is ready
      (guardedWriter.Write :370-379).  A send on a closed channel panics (runtime), it is not dropped.
    Scripts: per-item mapper behaviour = list of actions, reducer = how many values to receive, then actions. *)
@@ -288,6 +289,12 @@ Definition step_r (s : state) : option state :=
 Definition load_outcome (s : state) (dflt : outcome) : outcome :=   (* :246-252 *)
   match reterr s with Some e => OErr e | None => dflt end.
 
+Definition deferred_outcome (s : state) (o : outcome) : outcome :=
+  match o with
+  | OPanic _ => o
+  | _ => if wrote s then match fpanic s with Some p => OPanic p | None => o end else o
+  end.
+
 Definition step_cctx (s : state) : option state :=
   match c s with
   | CSelect => if ctxd s then Some (set_c (CCancel CcEnter) s) else None
@@ -330,7 +337,9 @@ Definition step_c (s : state) : option state :=
       if fin s then Some (set_c (CDefer (OPanic p)) s)
       else match r s with RSend k a => Some (set_r (RRun a) s) | _ => None end
   | CDefer o =>
-      if fin s then Some (set_c (CDone o) s)
+      (* `for range output` ends on close; then (e753473) a non-blocking receive from the panic buffer: a pending
+         panic replaces the outcome (the buffer is empty if the caller already took it: o = OPanic _) *)
+      if fin s then Some (set_c (CDone (deferred_outcome s o)) s)
       else match r s with RSend k a => Some (set_c (CDone OPanicTwice) (set_r (RRun a) s)) | _ => None end
   | CDone _ => None
   end.
